@@ -144,8 +144,10 @@ theorem den_setLo_zero (r0 : Int × Int) (rs : RL) (mn v : Int) (h : Den (r0 :: 
   · exact ⟨r, List.mem_cons_of_mem _ hr, h1, h2⟩
 
 /-- **Lower bounds are sound.**  `VariableBoundMinPropagator` with limit `mn` (created for
-    `f >= mn` / `f > mn - 1`) keeps every value of an ascending domain that is at least `mn` -/
-theorem minProp_keeps (l : RL) (mn v : Int) (hasc : Asc l) (hwf : ∀ r ∈ l, r.1 ≤ r.2) (h : Den l v) (hv : mn ≤ v) :
+    `f >= mn` / `f > mn - 1`) keeps every value of an ascending domain that is at least `mn`
+    (every range but possibly the first well-formed: the propagator itself can leave `(mn, hi)` with
+    `mn > hi` in front) -/
+theorem minProp_keeps (l : RL) (mn v : Int) (hasc : Asc l) (hwf : ∀ r ∈ l.tail, r.1 ≤ r.2) (h : Den l v) (hv : mn ≤ v) :
     Den (minProp l mn).1 v := by
   obtain ⟨r, hr, h1, h2⟩ := h
   obtain ⟨k, hk, hkr⟩ := List.getElem_of_mem hr
@@ -170,7 +172,11 @@ theorem minProp_keeps (l : RL) (mn v : Int) (hasc : Asc l) (hwf : ∀ r ∈ l, r
         · subst hkl; rw [← hkr, hlastidx]
         · have := asc_get l hasc k (l.length - 1) (by omega) (by omega)
           rw [hkr, hlastidx] at this
-          have hlo : rl.1 ≤ rl.2 := hwf rl (by rw [← hl]; exact List.getLast_mem hne)
+          have hlo : rl.1 ≤ rl.2 := hwf rl (by
+            rw [← hlastidx, List.mem_iff_getElem]
+            refine ⟨l.length - 2, by simp; omega, ?_⟩
+            rw [List.getElem_tail]
+            congr 1; omega)
           omega
       omega
     · simp only [hgt, if_false]
